@@ -32,6 +32,44 @@ def deliveredOK (cs : Nat) (audio : List Int) (written : List (List Int)) (compl
   let want := chunksSpec cs audio
   written == want.take written.length && (!complete || written == want)
 
+/-! ### the call `AudioIO.play(audio, **kwargs)` as written, and what it asks of the backend -/
+
+/-- keyword arguments of `play` / `AudioThread.__init__`: each one given or omitted -/
+structure PlayCall where
+  chunkSize : Option Nat := none      -- `chunk_size=`; omitted or `None`: `chunks.size`
+  dfmt : Option String := none        -- `dfmt=`; omitted: `"f"`
+  channels : Option Nat := none       -- `channels=`; omitted: 1
+  rate : Option Nat := none           -- `rate=`; omitted: `DEFAULT_SAMPLE_RATE` = 44100
+  device : Option Nat := none         -- `output_device_index=` (any other keyword is passed through alike)
+  deriving Repr, DecidableEq, Inhabited
+
+/-- keyword arguments of `pa.open(...)` -/
+structure OpenArgs where
+  format : Nat
+  channels : Nat
+  rate : Nat
+  framesPerBuffer : Nat
+  output : Bool
+  device : Option Nat
+  deriving Repr, DecidableEq, Inhabited
+
+/-- `_STRUCT2PYAUDIO` -/
+def fmtCode : String → Nat
+  | "f" => 1 | "i" => 2 | "h" => 8 | "b" => 16 | "B" => 32 | _ => 0
+
+/-- frames per chunk of the call (`chunk_size`, default `chunks.size`) -/
+def frames (defaultSize : Nat) (c : PlayCall) : Nat := c.chunkSize.getD defaultSize
+
+/-- samples per chunk handed to `chunks(audio, size=…)`: `chunk_size * nchannels` -/
+def samplesPerChunk (defaultSize : Nat) (c : PlayCall) : Nat := frames defaultSize c * c.channels.getD 1
+
+/-- the `pa.open` call of `AudioThread.__init__`; `apiOut` = `api["defaultOutputDevice"]` when the
+    manager was built with `api=…` (a `setdefault`: an explicit `output_device_index` wins) -/
+def openArgs (defaultSize : Nat) (apiOut : Option Nat) (c : PlayCall) : OpenArgs :=
+  { format := fmtCode (c.dfmt.getD "f"), channels := c.channels.getD 1, rate := c.rate.getD 44100,
+    framesPerBuffer := frames defaultSize c, output := true,
+    device := match c.device with | some d => some d | none => apiOut }
+
 /-- state "after close": every device stream closed, backend terminated exactly once,
     `_threads` empty, manager finished, every player thread past its last backend call and
     past `thread_finished` (only the release of its own locks may remain). -/
